@@ -9,7 +9,7 @@ THEOREMS = ["Mesa.Agents." + t for t in (
     "C02_unique_ids_all_histories", "C02_ids_never_change", "C02_remove_atomic_and_idempotent",
     "C02_other_models_untouched", "C02_create_agents_splits_arguments", "C02_sets_nodup_all_histories",
     "C02_other_models_untouched_all_histories", "C02_direct_register_and_deregister",
-    "C02_removed_stays_removed_everywhere", "C02_copy_of_a_set_shares_nothing")]
+    "C02_removed_stays_removed_everywhere", "C02_copy_shows_the_members_at_that_moment")]
 COUNTS = {"quick": 1000, "thorough": 150000}
 TRUSTED = [
     "CPython dict / WeakKeyDictionary keep insertion order; deleting a key keeps the order of the others (the model uses lists)",
